@@ -628,7 +628,7 @@ def U_block2():
         for t in T:
             yield ("optional", (t,))
             yield ("loop", None, (t, ("break", None)))
-            yield ("loop", None, (t, ("optional", (("match", lit(";")), ("break", None)))))
+            yield ("loop", None, (t, ("optional", (("match", lit(";;")), ("break", None)))))     # (a one-byte exit pattern is refused as ambiguous)
             yield ("foreach", (t,), (("hook", "g"),))
             for hb in ((), (("hook", "g"),), (("match", lit("x")),)):
                 for opts in (None, ("nomatch",), ("outofspace",)):
@@ -641,7 +641,7 @@ def U_block2():
     def outers(body):
         yield ("optional", body)
         yield ("loop", None, body + (("break", None),))
-        yield ("loop", None, body + (("optional", (("match", lit("!")), ("break", None))),))
+        yield ("loop", None, body + (("optional", (("match", lit("!!")), ("break", None))),))
         yield ("foreach", body, (n1,))
         yield ("try", body, None, (("hook", "g"),))
         yield ("try", body, ("nomatch",), (("match", lit("z")),))
